@@ -600,6 +600,7 @@ func (sp *subProcess) run(ctx context.Context, out tracing.ITracer) {
 						trace = tracing.Unwrap(trace)
 						switch tr := trace.(type) {
 						case CeaseFlowTrace:
+							verifAt("sub.ceased")
 							out.Send(ProcessLandMarkTrace{Node: sp.element})
 							break loop
 						case CompletionTrace:
